@@ -733,6 +733,7 @@ func runC20(p *core.Prog, r *core.Report) {
 		type arm struct {
 			key, val string
 			call     ssa.CallInstruction
+			edge     sx.Edge
 		}
 		var arms []arm
 		sx.Instrs(runFn, func(in ssa.Instruction) {
@@ -751,7 +752,7 @@ func runC20(p *core.Prog, r *core.Report) {
 					tb := iff.Block().Succs[0]
 					for _, i2 := range tb.Instrs {
 						if c, ok := i2.(ssa.CallInstruction); ok {
-							arms = append(arms, arm{k, v, c})
+							arms = append(arms, arm{k, v, c, sx.Edge{From: iff.Block(), Idx: 0}})
 							break
 						}
 					}
@@ -771,6 +772,22 @@ func runC20(p *core.Prog, r *core.Report) {
 		ok1, d1 := find(envConsts(launcher), func(c ssa.CallInstruction) bool { return sx.StaticCallee(c) == nil && !c.Common().IsInvoke() })
 		r.Check(ok1, "C20-R4", "daemon flag set by the launcher selects the handler in Run", p.FuncPos(runFn), d1+" → registered handler", "the launcher starts the daemon with "+d1+" but Run does not dispatch that value to the handler")
 		ok2, d2 := find(envConsts(launch), func(c ssa.CallInstruction) bool { return sameFn(sx.StaticCallee(c), launcher) })
+		if !ok2 && sameFn(launcher, runFn) {
+			// the launcher's body is written out in Run's own arm: cmd.Start is reached only through that arm
+			var start ssa.Instruction
+			sx.Instrs(runFn, func(in ssa.Instruction) {
+				if c, ok := in.(ssa.CallInstruction); ok && sx.CalleeName(c) == "(*os/exec.Cmd).Start" {
+					start = in
+				}
+			})
+			for _, a := range arms {
+				for _, e := range envConsts(launch) {
+					if e == a.key+"="+a.val && start != nil && sx.MustPass(runFn, nil, start, sx.Cut{Edges: map[sx.Edge]bool{a.edge: true}}) {
+						ok2, d2 = true, e
+					}
+				}
+			}
+		}
 		r.Check(ok2, "C20-R4", "launcher flag set by Launch selects the launcher in Run", p.FuncPos(runFn), d2+" → "+fnName(launcher), "Launch starts the launcher with "+d2+" but Run does not dispatch that value to "+fnName(launcher))
 	}
 }
